@@ -5,6 +5,7 @@ Theorems over the tables regenerated from the current source on every run
 -/
 import CnfgenModel.Cli.TableChecks
 import CnfgenModel.Cli.Chain
+import CnfgenModel.Cli.Phases
 namespace Cnfgen.C17
 open Cnfgen.Cli Cnfgen.Gen
 
@@ -31,6 +32,8 @@ theorem tables_nonempty :
       (fun n => helpers.any (fun h => h.name == n && h.kind == "transformation"))) = true := by
   decide +kernel
 
+def counterGen17 : Gen Nat := ⟨fun s => s.natAbs * 1000, fun st => (st + 1, st)⟩
+
 /-! ### `-T` chains -/
 
 /-- T-C17.2a splitting the command line around `-T` loses nothing: re-joining the chunks with `-T`
@@ -49,6 +52,22 @@ applied to the result for `ts` (so it is the left fold of the steps, in command-
 theorem chain_snoc {F E : Type} (apply : F → String → Except E F) (f : F) (ts : List String) (t : String) :
     applyChain apply f (ts ++ [t]) = (applyChain apply f ts).bind (fun g => apply g t) :=
   applyChain_snoc apply f ts t
+
+/-! ### the graph named on the command line vs the stored graph -/
+
+/-- T-C17.4 with a seed, the random choices of the formula generator and of the transformations do not
+depend on how many draws the graph arguments made while the command line was parsed: `cnfgen -S s kcolor 3
+gnp 6 .5 save G.gml -T shuffle` and `cnfgen -S s kcolor 3 G.gml -T shuffle` make the same choices (the generator
+is re-seeded just before the formula is built) -/
+theorem build_choices_independent_of_graph_source {S : Type} (g : Gen S) (s : Int) (p₁ p₂ b : Nat)
+    (env₁ env₂ : Env S) :
+    (run g current ⟨some s, p₁, b, false⟩ env₁).buildVals = (run g current ⟨some s, p₂, b, false⟩ env₂).buildVals := by
+  simp [run, current, effective]
+
+/-- without the second seeding the statement is false: the parse-time draws shift the stream -/
+theorem no_reseed_shifts_stream :
+    (run counterGen17 ⟨true, true, false⟩ ⟨some 5, 2, 1, false⟩ ⟨7, 0, 0⟩).buildVals ≠
+    (run counterGen17 ⟨true, true, false⟩ ⟨some 5, 0, 1, false⟩ ⟨7, 0, 0⟩).buildVals := by decide
 
 example : splitT ["cnfgen", "php", "5", "4", "-T", "shuffle", "-T", "xor", "3"] =
     [["cnfgen", "php", "5", "4"], ["shuffle"], ["xor", "3"]] := by decide
